@@ -552,9 +552,15 @@ def run_assemble_cli(ctx, on_fit):
         samples, parsed = parse_vcf(out)
         if len(recs) != len(ds["loci"]) * len(ds["samples"]):
             raise Violation("cli_sampler_runs", "mchap assemble fitted %d models for %d loci x %d samples" % (len(recs), len(ds["loci"]), len(ds["samples"])), step=0)
+        index = {name: k for k, (_, _, _, name) in enumerate(ds["loci"])}
         for rec in recs:
             rec["ploidy"] = ploidy[rec["sample"]]
             rec["inbreeding"] = inb[rec["sample"]]
+            k = index[rec["locus"]]
+            c, a, b, _ = ds["loci"][k]
+            rec["snv_alleles"] = [ds["snv_alleles"]["%s:%d" % (c, p0)] for p0 in ds["locus_snvs"][k]]
+            rec["snv_offsets"] = [p0 - a for p0 in ds["locus_snvs"][k]]
+            rec["refseq"] = ds["ref"][c][a:b]
             on_fit(rec)
         return ds, recs, parsed
 
@@ -591,3 +597,30 @@ def shrink_candidates(cfg):
     if cfg.get("report_gp"):
         mod(report_gp=False)
     return out
+
+
+def check_assemble_target(ctx, rec):
+    """C01 consequence clause at the command line: the model `mchap assemble` fits is the documented posterior of the inputs it
+    was given - ploidy and inbreeding of that sample, allele counts of the locus' SNVs, the requested ladder ending at 1."""
+    cfg = ctx.config
+    mdl = rec["model"]
+    where = "locus %s, sample %s" % (rec["locus"], rec["sample"])
+    if int(mdl.ploidy) != rec["ploidy"]:
+        raise Violation("cli_target", "mchap assemble fits ploidy %r for a sample of ploidy %d (%s)" % (mdl.ploidy, rec["ploidy"], where), step=0)
+    if abs(float(mdl.inbreeding) - rec["inbreeding"]) > 1e-12:
+        raise Violation("cli_target", "mchap assemble fits inbreeding %r for a sample with inbreeding %r (%s)" % (mdl.inbreeding, rec["inbreeding"], where), step=0)
+    want_n = [len(a) for a in rec["snv_alleles"]]
+    if [int(x) for x in mdl.n_alleles] != want_n:
+        raise Violation("cli_target", "mchap assemble fits allele counts %r; the SNVs of the locus have %r (%s)" % (list(mdl.n_alleles), want_n, where), step=0)
+    reads = rec["reads"]
+    if reads.ndim != 3 or reads.shape[1] != len(want_n) or (len(want_n) and reads.shape[2] < max(want_n)):
+        raise Violation("cli_target", "read array of shape %r for %d SNVs with allele counts %r (%s)" % (reads.shape, len(want_n), want_n, where), step=0)
+    ladder = [float(t) for t in mdl.temperatures]
+    want_l = sorted(set([float(t) for t in (cfg["temperatures"] or [])] + [1.0]))
+    if ladder != want_l:
+        raise Violation("cli_target", "mchap assemble runs the temperature ladder %r; requested %r (%s)" % (ladder, want_l, where), step=0)
+    if int(mdl.steps) != cfg["mcmc_steps"] or int(mdl.chains) != cfg["mcmc_chains"] or mdl.random_seed != cfg["mcmc_seed"]:
+        raise Violation("cli_target", "mchap assemble runs steps/chains/seed %r/%r/%r; requested %r/%r/%r (%s)"
+                        % (mdl.steps, mdl.chains, mdl.random_seed, cfg["mcmc_steps"], cfg["mcmc_chains"], cfg["mcmc_seed"], where), step=0)
+    ctx.counters.inc("cli_models_checked")
+    ctx.key("cli-target", rec["ploidy"], tuple(want_n), round(rec["inbreeding"], 3), tuple(ladder))
